@@ -74,7 +74,7 @@ class C01(Spec):
                    '(counted in the evidence)']
 
     def gen(self, tier, rng):
-        n = 260 if tier == 'quick' else 2000
+        n = 200 if tier == 'quick' else 2000
         nextra = 6 if tier == 'quick' else 14
         cases = []
         for k in range(n):
